@@ -478,7 +478,7 @@ class C20(World):
             if str(g.get("shape", "")).startswith("large"):
                 # the 67 600-vertex meshes are C08's business; here every fault needs many cheap attempts
                 g["shape"], g["mesh"]["base"] = "normal", "icosa1"
-        ops = [{"op": "payload", "geom": geom, "other": other, "rs": rng.randrange(2**31)}]
+        ops = [{"op": "payload", "geom": geom, "other": other, "rs": rng.randrange(2**31), "corpus": rng.randrange(2**16) if rng.random() < 0.2 else None}]
         for _ in range(cfg["n_attempts"]):
             kind = pick(rng, cfg["weights"])
             u = rng.random()
@@ -526,6 +526,10 @@ class C20(World):
             shutil.rmtree(scratch, ignore_errors=True)
 
     def _payload(self, op, cfg, st, ctx):
+        if op.get("corpus") is not None:
+            got = fw.corpus_payload(cfg["fmt"], op["corpus"])
+            if got is not None:
+                return self._corpus_payload(got, op, cfg, st, ctx)
         obj = fw.build_geometry(op["geom"], cfg["fmt"])
         if cfg["kind"] == "mesh" and op["geom"].get("shape") == "empty":
             op = dict(op, geom=dict(op["geom"], shape="normal"))
@@ -541,6 +545,19 @@ class C20(World):
         ctx.count("op:payload:" + cfg["fmt"])
         if cfg["fmt"] != "dxf":  # DXF handles embed id(entity): never logged
             ctx.event("payload", cfg["fmt"], {k: v for k, v in sorted(files.items())})
+
+    def _corpus_payload(self, got, op, cfg, st, ctx):
+        """A model file of the tree under test as the valid payload: what a fault-free load returns now is what it must return after the faults."""
+        files, main, ft, name = got
+        try:
+            base = fw.load_payload(files, main, ft, route="load", transport="bytesio", kwargs={"process": False} if cfg["kind"] in ("mesh", "scene", "points") else {})[0]
+            want = fw.content(fw.normalise_loaded(base, cfg["kind"]))
+        except Exception:
+            # a model the loader does not accept as it stands (several are deliberately broken): still a good starting point for faults
+            want = None
+        st.update({"files": dict(files), "main": main, "ft": ft, "pristine": dict(files), "want": want, "other": b""})
+        ctx.count("op:payload:corpus:" + cfg["fmt"])
+        ctx.event("payload-corpus", cfg["fmt"], name, len(files[main]))
 
     def _faulted_files(self, op, cfg, st, ctx):
         f = op["fault"]
@@ -641,6 +658,10 @@ class C20(World):
         res = mon.run(lambda: fw.load_payload(files, main, ft, route="load", transport="bytesio", scratch=scratch, kwargs={"process": False} if cfg["kind"] in ("mesh", "scene", "points") else {})[0], budget_steps(total))
         ctx.steps_sim += res["steps"]
         ctx.count("check:valid-after")
+        if st["want"] is None:
+            # corpus model that does not load even unfaulted: only the resource oracles apply
+            ctx.event("valid_after", cfg["fmt"], res["outcome"])
+            return
         if res["outcome"] != "returned":
             ctx.fail("liveness", cfg["fmt"] + "-valid-after-faults", f"valid {cfg['fmt']} no longer loads after the fault sequence: {res['outcome']} {res['exc']}")
         if res["peak"] > budget_mem(total) or res["steps"] > budget_steps(total):
